@@ -30,6 +30,8 @@ func init() {
 			{"C18/mechanism-words", "OpenIDEnabled / KerberosEnabled / BasicAuthEnabled / NtlmEnabled test membership of the documented words", c18Words},
 			{"C18/wiring", "main: Load and NewHandler precede serving; every key is copied to the variable its consumer reads", c18Wiring},
 			{"C18/downstream-minimums", "session store, PAA, user and query token code refuse keys shorter than 32", c18Downstream},
+			{"C18/config-tags", "the configuration fields this property depends on are read from the documented keys: koanf tag = lower-cased field name", func(c *Ctx) { configTags(c, "C18/config-tags", map[string][]string{"Configuration": {"*"}, "ServerConfig": {"*"}, "SecurityConfig": {"*"}, "KerberosConfig": {"*"}, "RDGCapsConfig": {"TokenAuth"}}) }},
+			{"C18/settings-writers", "the settings the refusals test are written only by the configuration loader", func(c *Ctx) { settingsWriters(c, "C18/settings-writers") }},
 		},
 	})
 }
